@@ -546,40 +546,125 @@ Definition place (d : fsys) (p : rpath) (k : ekind) (data : bytes) : option fsys
   | _, _ => Some (write d p (node_of k data))
   end.
 
-(* one entry: validation first, then unpack_in(dest) -- the parent directory is resolved through
-   the file system and must stay inside dest (tar's validate_inside_dst), the entry itself is
-   created at resolved-parent/last-component without following a link at that name *)
-Definition extract_entry (links_ok : bool) (dest : rpath) (d : fsys) (e : tentry) : xresult :=
+(* ---- what the F23 repair looks at and what tar's ensure_dir_created does *)
+
+(* the names of the Normal components (after validation: all of them) *)
+Definition normal_names (cs : list comp) : rpath :=
+  flat_map (fun c => match c with CNormal n => [n] | _ => [] end) cs.
+
+(* `for component in path.components() { dest_path.push(component); if dest_path is a symlink ..`:
+   is cur/n1, cur/n1/n2, ... , cur/n1/../nk (the last one included) a link? *)
+Fixpoint link_on_path (d : fsys) (cur : rpath) (ns : list name) : bool :=
+  match ns with
+  | [] => false
+  | n :: r =>
+      match lookup d (cur ++ [n]) with
+      | Some (NLink _) => true
+      | _ => link_on_path d (cur ++ [n]) r
+      end
+  end.
+
+(* `dir.canonicalize_utf8()`: no component of the destination directory is a link *)
+Definition dest_canonical (d : fsys) (dest : rpath) : bool := negb (link_on_path d [] dest).
+
+(* a regular file where a directory is needed: create_dir_all / open fail with ENOTDIR *)
+Fixpoint file_on_path (d : fsys) (cur : rpath) (ns : list name) : bool :=
+  match ns with
+  | [] => false
+  | n :: r =>
+      match lookup d (cur ++ [n]) with
+      | Some (NFile _) => true
+      | _ => file_on_path d (cur ++ [n]) r
+      end
+  end.
+
+(* ensure_dir_created: every missing ancestor cur/n1, cur/n1/n2, ... becomes a directory *)
+Fixpoint mkdirs (d : fsys) (cur : rpath) (ns : list name) : fsys :=
+  match ns with
+  | [] => d
+  | n :: r =>
+      mkdirs (match lookup d (cur ++ [n]) with
+              | None => write d (cur ++ [n]) NDir
+              | Some _ => d
+              end) (cur ++ [n]) r
+  end.
+
+(* tar's unpack_in at the destination q <> dest it computed, as the code BEFORE the F23 repair
+   reaches it: the parent directory is resolved through the file system and must stay inside dest
+   (validate_inside_dst), the entry itself is created at resolved-parent/last-component without
+   following a link at that name. (Implicitly created parent directories are not recorded by this
+   machine; it is kept for the F19/F23 witnesses and the theorems outside their classes.) *)
+Definition unpack_through (dest : rpath) (d : fsys) (q : rpath) (k : ekind) (data : bytes) : xresult :=
+  match realpath d (removelast q) with
+  | None => XIoError d
+  | Some parent =>
+      if negb (path_prefix dest parent) then XIoError d
+      else match place d (parent ++ [last q []]) k data with
+           | Some d' => XOk d'
+           | None => XIoError d
+           end
+  end.
+
+(* the same after the F23 repair has passed (no link at dest/n1 .. dest/n1/../nk, ns = n1..nk the
+   entry's components): ensure_dir_created makes the missing parents (a regular file on the way is
+   an error), validate_inside_dst resolves the parent, unpack places the entry *)
+Definition unpack_checked (dest : rpath) (d : fsys) (ns : list name) (k : ekind) (data : bytes)
+  : xresult :=
+  let par := removelast ns in
+  match realpath d (dest ++ par) with
+  | None => XIoError d
+  | Some parent =>
+      if negb (path_prefix dest parent) then XIoError d
+      else if file_on_path d dest par then XIoError d
+      else match place (mkdirs d dest par) (parent ++ [last ns []]) k data with
+           | Some d' => XOk d'
+           | None => XIoError d
+           end
+  end.
+
+(* one entry: validation (ArchiveReader::entries), then -- the F23 repair, switched off by
+   [thru = true] = the code before it -- the refusal to go through or onto a link that already
+   exists below dest, then unpack_in(dest) *)
+Definition extract_entry (links_ok thru : bool) (dest : rpath) (d : fsys) (e : tentry) : xresult :=
   let code := entry_check links_ok e in
   if negb (code =? 0) then XRejected code d
   else match utf8_decode (te_raw e) with
        | None => XRejected 1 d
        | Some s =>
-           match dest_of dest s with
-           | None => XOk d                                   (* skipped by tar *)
-           | Some q =>
-               if path_eqb q dest then XOk d
-               else match realpath d (removelast q) with
-                    | None => XIoError d
-                    | Some parent =>
-                        if negb (path_prefix dest parent) then XIoError d
-                        else match place d (parent ++ [last q []]) (te_kind e) (te_data e) with
-                             | Some d' => XOk d'
-                             | None => XIoError d
-                             end
-                    end
-           end
+           let ns := normal_names (components s) in
+           if negb thru && link_on_path d dest ns then XIoError d
+           else match dest_of dest s with
+                | None => XOk d                                   (* skipped by tar *)
+                | Some q =>
+                    if path_eqb q dest then XOk d
+                    else if thru then unpack_through dest d q (te_kind e) (te_data e)
+                         else unpack_checked dest d ns (te_kind e) (te_data e)
+                end
        end.
 
-Fixpoint extract (links_ok : bool) (dest : rpath) (d : fsys) (es : list tentry) : xresult :=
+Fixpoint extract (links_ok thru : bool) (dest : rpath) (d : fsys) (es : list tentry) : xresult :=
   match es with
   | [] => XOk d
   | e :: r =>
-      match extract_entry links_ok dest d e with
-      | XOk d' => extract links_ok dest d' r
+      match extract_entry links_ok thru dest d e with
+      | XOk d' => extract links_ok thru dest d' r
       | other => other
       end
   end.
+
+(* Path::exists (follows links) *)
+Definition exists_follow_fs (d : fsys) (p : rpath) : bool :=
+  match realpath d p with
+  | Some q => match lookup d q with Some (NFile _) | Some NDir => true | _ => false end
+  | None => false
+  end.
+
+(* Unarchiver::extract into ExtractDestination::Destination { dir, overwrite }; dest = the
+   canonicalised dir. Code 6 = DestinationExists. The initial file system d is ARBITRARY. *)
+Definition extract_to (links_ok thru overwrite : bool) (dest : rpath) (d : fsys)
+           (es : list tentry) : xresult :=
+  if negb overwrite && exists_follow_fs d (dest ++ [target_name]) then XRejected 6 d
+  else extract links_ok thru dest d es.
 
 Definition result_fs (x : xresult) : fsys :=
   match x with XOk d | XRejected _ d | XIoError d => d end.
